@@ -114,3 +114,29 @@ def run_selftest(pid, work):
                'bad': [r['name'] + ':' + r['verdict'] for r in res if r['verdict'] in ('MISSED', 'FALSE-ALARM')],
                'mutants_for_this_property': [r['name'] for r in res if r['kind'] == 'mutant']}
     return summary
+
+
+def run_sweep(pid, work):
+    """Thorough tier: automatic line-level mutation sweep over the files the property is anchored in
+    (properties.jsonl anchors.files). Sensitivity measurement of the rule set; never a verdict on /repo."""
+    files = []
+    for l in open(os.path.join(VERIF, 'properties.jsonl')):
+        pj = json.loads(l)
+        if pj['id'] == pid:
+            files = [f for f in pj['anchors']['files'] if f.startswith('src/') and not f.endswith('tests.rs')]
+    if not files:
+        return None
+    out_json = os.path.join(work, 'sweep.json')
+    p = subprocess.run([sys.executable, os.path.join(VERIF, 'selftest', 'sweep.py'), '--jobs', '12', '--files', ','.join(files), '--json', out_json, '--workroot', work],
+                       capture_output=True, text=True)
+    if not os.path.exists(out_json):
+        return {'error': (p.stdout + p.stderr)[-300:]}
+    res = json.load(open(out_json))
+    ana = [r for r in res if r['status'] == 'analysed']
+    killed = [r for r in ana if r['rules'] or r['missing']]
+    by_prop = [r for r in ana if pid in r.get('props', [])]
+    alive = [r for r in ana if not (r['rules'] or r['missing'])]
+    return {'files': files, 'operators': 'DEL (delete statement), NEG (negate if-condition), CMP (flip comparison)', 'generated': len(res), 'type_check': len(ana),
+            'reported_by_some_rule': len(killed), 'reported_by_this_property': len(by_prop),
+            'not_reported_sample': ['%s:%d %s %s' % (r['file'], r['line'], r['op'], r['old'][:60]) for r in alive[:25]],
+            'note': 'most unreported mutants change values/arithmetic or code outside this property; they are listed for triage, not as findings'}
